@@ -122,6 +122,71 @@ def tool_matrix(full, sel):
     return base + [ext[sel % len(ext)], ext[(sel * 7 + 3) % len(ext)]]
 
 
+# ------------------------------------------------------------------ tool option swarm (E9)
+T_RANGES = ["0x-0x", "$0-$ffff", "$100-$1ff", "0-0", "$ffffffff-$ffffffff", "5-2", "0x-$10", "$fffffff0-0x", "x", "",
+            "1", "-", "0-$7fffffff", "$1000-$1003", "0x-0", "$8000-0x"]
+T_NUMS = ["0", "1", "2", "3", "4", "5", "6", "7", "8", "15", "16", "17", "32", "253", "254", "255", "256", "65535",
+          "65536", "-1", "$ffffffff", "$7fffffff", "x", "", "0x10", "$1000"]
+T_SEGS = ["code", "data", "xdata", "ydata", "idata", "bitdata", "io", "reg", "romdata", "eedata", "x", "", "CODE"]
+T_FILT = ["$51", "$51,$31", "$01", "$76", "$70,$76", "x", "", "$100", "$51,", "0"]
+T_TOOLOPTS = {
+    "p2hex": [("-f", T_FILT), ("-r", T_RANGES), ("-R", T_NUMS), ("-a", None), ("-i", ["0", "1", "2", "3", "x"]),
+              ("-m", ["0", "1", "2", "3", "4", "x"]), ("-F", HEXFMTS + ["x", "default", ""]), ("-5", None), ("-s", None),
+              ("-d", T_RANGES), ("-e", T_NUMS), ("-l", T_NUMS), ("-k", None), ("-M", ["1", "2", "3", "0", "4", "x"]),
+              ("-q", None), ("-segment", T_SEGS), ("-avrlen", ["2", "3", "1", "4", "0", "x"]),
+              ("-cformat", ["dSEl", "x", "", "DSELdsel", "d", "sel"]), ("+5", None), ("+a", None), ("+s", None)],
+    "p2bin": [("-f", T_FILT), ("-r", T_RANGES), ("-s", None), ("-l", T_NUMS), ("-e", T_NUMS), ("-k", None), ("-q", None),
+              ("-m", ["all", "even", "odd", "byte0", "byte1", "byte2", "byte3", "word0", "word1", "x", ""]),
+              ("-S", ["B4", "L4", "B2", "L2", "L1", "B1", "x", "B9", "4", "L0", "B8", "L8"]), ("-segment", T_SEGS), ("+s", None)],
+    "pbind": [("-f", T_FILT), ("-q", None)],
+    "plist": [("-q", None)],
+    "alink": [("-v", None), ("-v", None)],
+}
+
+
+PAIR_REFS = ["c30", "68k", "pic", "8051", "synth-grans", "56k", "reloc"]
+
+
+def tool_pairs(prog):
+    """All unordered pairs of (option, value) settings of one utility (a value-less option pairs as itself)."""
+    single = []
+    for o, vals in T_TOOLOPTS[prog]:
+        if vals is None:
+            single.append([o])
+        else:
+            single += [[o, v] for v in vals]
+    out = []
+    for i in range(len(single)):
+        for j in range(i, len(single)):
+            out.append(single[i] + (single[j] if j != i else []))
+    return out
+
+
+def gen_toolopt(rng, refs):
+    prog = rng.choice(["p2hex", "p2hex", "p2hex", "p2bin", "p2bin", "pbind", "plist", "alink"])
+    name = rng.choice(sorted(refs))
+    b = refs[name]
+    # mostly valid files: the options are the fault here; sometimes one field edit on top
+    if rng.chance(0.25):
+        edits = field_edits(b, False)
+        desc, b = rng.choice(edits)
+        name += "+" + desc
+    argv = []
+    for _ in range(rng.below(5)):
+        o, vals = rng.choice(T_TOOLOPTS[prog])
+        argv.append(o)
+        if vals is not None:
+            argv.append(rng.choice(vals))
+    files = ["f.p"]
+    if prog in ("pbind", "alink") and rng.chance(0.4):
+        files.append("g.p")
+    if prog != "plist":
+        files.append(rng.choice(["out", "out.x", "f.p"]) if rng.chance(0.15) else "out.p" if prog in ("pbind", "alink") else "out.o")
+    pos = rng.below(3)
+    argv = files + argv if pos == 0 else argv + files if pos == 1 else files[:1] + argv + files[1:]
+    return prog, argv, name, b
+
+
 def sc_tool(prog, argv, fbytes, extra=None):
     disk = {"/w/f.p": fbytes}
     if extra:
@@ -179,7 +244,9 @@ BIG_COUNTS = {"70000", "65536", "68000", "2147483648", "9223372036854775807", "1
 def tame(op, arg):
     """Repetition counts stay small: a REPT of 2^31 iterations legitimately runs for hours (the property speaks of time
     proportional to the work described), and symbol-table growth per iteration is quadratic without -A."""
-    if op.upper() in ("REPT", "IRPN", "WHILE") and arg.split(",")[0] in BIG_COUNTS:
+    first = arg.split(",")[0]
+    # a multi-character string constant is a number too ("\x1000" is 0x103030: a million iterations)
+    if op.upper() in ("REPT", "IRPN", "WHILE") and (first in BIG_COUNTS or first[:1] in "\"'"):
         return ",".join(["3000"] + arg.split(",")[1:])
     return arg
 
@@ -255,8 +322,9 @@ def plan(tier, seed):
         for lo in range(0, n, 40):
             cases.append({"gen": "flip", "ref": name, "per_payload": 3 if thorough else 1, "full": thorough,
                           "seed": mix(seed, "flip", name, lo), "lo": lo, "hi": min(n, lo + 40)})
-        nrec = len(codefile.parse(b, strict=False).records)
-        for ri in range(-1, nrec):
+        cfp = codefile.parse(b, strict=False)
+        nrec = len(cfp.records)
+        for ri in ([-2] if cfp.reloc else []) + list(range(-1, nrec)):
             cases.append({"gen": "field", "ref": name, "full": thorough, "rec": ri})
     # split E1 cases into chunks for parallelism
     out = []
@@ -335,6 +403,19 @@ def plan(tier, seed):
     n9 = 6000 if thorough else 600
     for i in range(0, n9, 50):
         cases.append({"gen": "dasl", "seed": mix(seed, "dasl", i), "n": 50})
+    # E9 option swarm for the utilities over (mostly valid) reference files
+    n10 = 60000 if thorough else 4000
+    for i in range(0, n10, 200):
+        cases.append({"gen": "toolopt", "seed": mix(seed, "topt", i), "n": 200})
+    # ... and every pair of option settings of p2hex / p2bin over reference files of each granularity
+    for prog in ("p2hex", "p2bin"):
+        npairs = len(tool_pairs(prog))
+        for ref in PAIR_REFS:
+            if thorough:
+                for lo in range(0, npairs, 400):
+                    cases.append({"gen": "toolpair", "prog": prog, "ref": ref, "lo": lo, "hi": min(npairs, lo + 400)})
+            else:
+                cases.append({"gen": "toolpair", "prog": prog, "ref": ref, "sample": 500, "seed": mix(seed, "tpair", prog, ref)})
     return cases
 
 
@@ -462,6 +543,18 @@ def field_edits(b, full=True):
             out.append(("rec%d.start=%x" % (ri, st), b[:so] + struct.pack("<I", st) + b[so + 4:]))
         for ln in sorted({0, 1, max(0, r.length - 1), r.length + 1, 0xFFFF, 0x8000}):
             out.append(("rec%d.len=%d" % (ri, ln), b[:so + 4] + struct.pack("<H", ln) + b[so + 6:]))
+    # relocation-info records: the three 32-bit counts, including totals that wrap to a negative skip length
+    # (-13 lands on the record's own header, -1 inside it) and ones just inside / outside what a 32-bit int holds
+    for qi, (roff, cnt, ecnt, _tab) in enumerate(cf.reloc):
+        for fi, name in enumerate(("relocs", "exports", "strlen")):
+            fo = roff + 1 + 4 * fi
+            for v in (0, 1, 2, 0x0FFFFFFF, 0x10000000, 0x07FFFFFF, 0x08000000, 0x7FFFFFFF, 0x80000000, 0xFFFFFFFF,
+                      0xFFFFFFF3, 0xFFFFFFF0):
+                out.append(("rel%d.%s=%x" % (qi, name, v), b[:fo] + struct.pack("<I", v) + b[fo + 4:]))
+        # string length chosen so that 16*relocs + 16*exports + strlen is exactly -13, -12, -1 as a 32-bit int
+        for tot in (-13, -12, -1, -14):
+            v = (tot - 16 * cnt - 16 * ecnt) & 0xFFFFFFFF
+            out.append(("rel%d.total=%d" % (qi, tot), b[:roff + 9] + struct.pack("<I", v) + b[roff + 13:]))
     return out
 
 
@@ -500,7 +593,7 @@ def run_case(sim, case):
     elif g == "field":
         b = refs[case["ref"]]
         k = 0
-        want = "magic" if case["rec"] < 0 else "rec%d." % case["rec"]
+        want = "rel" if case["rec"] == -2 else "magic" if case["rec"] < 0 else "rec%d." % case["rec"]
         for desc, m in field_edits(b, case["full"]):
             if not desc.startswith(want):
                 continue
@@ -751,6 +844,26 @@ def run_case(sim, case):
                 s = ("\tcpu z80\n" + "".join(rng.choice(["\t", " ", "\n", "db", "macro", "endm", "if", "x", "1", ",", "\"", "(", ")", "[", "]", "irp", "rept", "struct", "\\"]) for _ in range(n // 2))).encode()
             run_one(sim, acc, "asl", sc_asl(s, swarm_opts(rng, 0.05)), "E8 raw %d bytes" % n, "raw-bytes")
         acc.sample = {"space": "E8", "n": case["n"]}
+    elif g == "toolopt":
+        rng = Rng(case["seed"])
+        refs = ref_files(sim)
+        for _ in range(case["n"]):
+            prog, argv, name, b = gen_toolopt(rng, refs)
+            sc = sc_tool(prog, argv, b, {"/w/g.p": refs["z80"]})
+            run_one(sim, acc, prog, sc, "E9 %s %s" % (name, " ".join(argv)), "tool-options")
+        acc.sample = {"space": "E9", "n": case["n"]}
+    elif g == "toolpair":
+        refs = ref_files(sim)
+        pairs = tool_pairs(case["prog"])
+        if "sample" in case:
+            idx = sorted(Rng(case["seed"]).sample(range(len(pairs)), min(case["sample"], len(pairs))))
+        else:
+            idx = range(case["lo"], case["hi"])
+        for i in idx:
+            argv = ["f.p", "out.o"] + pairs[i]
+            run_one(sim, acc, case["prog"], sc_tool(case["prog"], argv, refs[case["ref"]]),
+                    "E9 pair %s %s" % (case["ref"], " ".join(pairs[i])), "tool-option-pair")
+        acc.sample = {"space": "E9 pairs", "prog": case["prog"], "ref": case["ref"], "pairs": len(pairs), "run": len(idx)}
     elif g == "dasl":
         rng = Rng(case["seed"])
         for _ in range(case["n"]):
